@@ -239,7 +239,7 @@ theorem withdraw_accepted_ratio_exact (s s' : State) (p : Product) (e : Env) (fr
   exact ⟨v, hv, hid, ratioOk_exact p e _ _ hdi hdo hm hr⟩
 
 /-- **Debt floor**: after every history every open vault's principal is at least its product's debt floor. -/
-theorem floor_kept (cfg : Nat → Option Product) (hc : CfgOk cfg) (h : History) (hu : UsersOk h) (hne : NoEsmStable h) :
+theorem floor_kept (cfg : Nat → Option Product) (hc : CfgOk cfg) (h : History) (hu : UsersOk h) (hne : EsmRegular h) :
     ∀ v ∈ (runAll cfg State.init h).vaults, ∀ p, cfg v.product = some p → p.debtFloor ≤ v.amountOut := by
   obtain ⟨G', h', _, _⟩ := invG_always cfg hc h hu hne Gaps.zero State.init ((invG_zero cfg _).mpr (init_inv cfg hc)) goodGaps_zero
   exact h'.2.2.2.2.2.1
@@ -249,7 +249,7 @@ quantity every mint is checked against; in histories without auction settlement 
 open, stable-mint and awaiting-auction vaults (`totals_eq`), so that sum is bounded too. (After a settlement the
 published total is below the recorded sum by the settled vaults' interest and closing fees — finding D13 — so later
 mints can push the recorded sum above the ceiling by that amount: not excluded by this theorem.) -/
-theorem ceiling_kept (cfg : Nat → Option Product) (hc : CfgOk cfg) (h : History) (hu : UsersOk h) (hne : NoEsmStable h) (prod : Nat)
+theorem ceiling_kept (cfg : Nat → Option Product) (hc : CfgOk cfg) (h : History) (hu : UsersOk h) (hne : EsmRegular h) (prod : Nat)
     (p : Product) (hp : cfg prod = some p) :
     (runAll cfg State.init h).minted prod ≤ p.debtCeiling ∧
     (NoSettle h → mintedOfProduct (runAll cfg State.init h) prod ≤ p.debtCeiling) := by
